@@ -232,6 +232,12 @@ def step (st : St') (line : String) : St' × String :=
           [s!"C33 sweep at {now} marked {ans} but the Ready workers with a heartbeat older than {s.timeout} ms are {answer}"] else []
         simple [.sweep now] answer j
       | none => (st, "BADLINE")
+    | ["setstatus", w, stw] =>
+      -- test set-up: `WorkerNode::status` is a public field (used for Registering / Unhealthy start states)
+      match w.toNat?, parseStatus stw with
+      | some w, some x =>
+        finish st { modelAnswer := "ok", model := s.updW w (fun k => { k with status := x }) } ans dump
+      | _, _ => (st, "BADLINE")
     | ["drainmark", w] =>
       match w.toNat? with
       | some w => simple [.markDraining w] "ok"
@@ -300,6 +306,21 @@ def step (st : St') (line : String) : St' × String :=
         let (m, gf, js) := replayMigs s w migs
         finish st { judge := js, modelAnswer := ans, model := m, fail := gf } ans dump
       | _, _ => (st, "BADLINE")
+    | ["rebalance"] =>
+      -- `rebalance` = a sequence of `migrate_pipeline` calls; each observed migration must target an
+      -- available worker (C33) and is replayed as a model step (C32)
+      match parseList parseMig "," ((ans.drop 2).toString) with
+      | some migs =>
+        let (m, gf, js) := migs.foldl (fun (acc : St × Option GuardFail × List String) mg =>
+          let (s, gf, js) := acc
+          match mg with
+          | (g, n, some t, ok) =>
+            let stp := Step.migrateAtomic g n t ok
+            let j := if ok && !availIn s t then [s!"C33 rebalance moved {n} onto worker {t} which is not available"] else []
+            (Varpulis.Coord.step s stp, (match gf with | some f => some f | none => guardFail s stp), js ++ j)
+          | _ => acc) (s, none, [])
+        finish st { judge := js, modelAnswer := ans, model := m, fail := gf } ans dump
+      | none => (st, "BADLINE")
     | ["drain", w] =>
       match w.toNat? with
       | some w =>
